@@ -107,18 +107,46 @@ def ConvAgree (B X : Registry) (opts : Opts) (plug : Plug) : Prop :=
     toEntry (envOf X opts plug) (entryFuel X) root scope n vis st =
       toEntry (envOf B opts plug) (entryFuel B) root scope n vis st
 
+omit h in
+/-- The calls of `toEntry` that `processAll` makes itself: every loaded (sub)module statement, and every
+deviate statement of a deviation (both with an empty `visiting`). -/
+inductive TopCall (B : Registry) : Mod → List Stmt → Stmt → Prop
+  | top {m : Mod} : m ∈ B.mods → TopCall B m [] m.stmt
+  | deviate {m : Mod} {dv dsn : Stmt} : m ∈ B.mods → dv ∈ m.stmt.all "deviation" → dsn ∈ dv.all "deviate" →
+      TopCall B m [dv, m.stmt] dsn
+
+omit h in
+theorem TopCall.inv {env : Env} {root : Mod} {scope : List Stmt} {n : Stmt} (hc : TopCall env.reg root scope n) :
+    Fuel.Inv env root scope n := by
+  cases hc with
+  | top hm => exact Fuel.Inv.top hm
+  | deviate hm hdv hds => exact Fuel.Inv.deviate hm hdv hds
+
+omit h in
+/-- `ConvAgree` for the calls `processAll` makes itself (`TopCall`) — all that the frame theorems need.
+(`ConvAgree` speaks about every call with an arbitrary list of statements as `scope`, also lists so long
+that the grouping search of a `uses` is cut short at the one fuel and not at the other.) -/
+def ConvAgreeTop (B X : Registry) (opts : Opts) (plug : Plug) : Prop :=
+  ∀ (root : Mod) (scope : List Stmt) (n : Stmt) (st : TState), TopCall B root scope n →
+    toEntry (envOf X opts plug) (entryFuel X) root scope n [] st =
+      toEntry (envOf B opts plug) (entryFuel B) root scope n [] st
+
+omit h in
+theorem ConvAgree.top {opts : Opts} {plug : Plug} (hc : ConvAgree B X opts plug) : ConvAgreeTop B X opts plug :=
+  fun root scope n st htc => hc root scope n [] st (TopCall.inv (env := envOf B opts plug) htc)
+
 theorem convAgree_noUses (hno : ∀ m ∈ B.mods, noUses m.stmt = true) {plug : Plug} (hplug : PlugAgree plug B X)
     (opts : Opts) : ConvAgree B X opts plug :=
   fun root scope n vis st inv => toEntry_runs h hno hplug opts root scope n vis st inv
 
 omit h in
-theorem conv_base {plug : Plug} {opts : Opts} (hconv : ConvAgree B X opts plug) :
+theorem conv_base {plug : Plug} {opts : Opts} (hconv : ConvAgreeTop B X opts plug) :
     (keyOrder B).foldl (fun st m => (toEntry (envOf X opts plug) (entryFuel X) m [] m.stmt [] st).2) {} =
       tstate B opts plug := by
   unfold tstate
   apply Fuel.foldl_ext_mem
   intro st m hm
-  rw [hconv m [] m.stmt [] st (Fuel.Inv.top (Bridge.keyOrder_mem B m hm))]
+  rw [hconv m [] m.stmt st (TopCall.top (Bridge.keyOrder_mem B m hm))]
 
 /-- The conversion state of the run with the new modules: that of the run without them, plus one
 cache row and one empty row of pending augments per new module. -/
@@ -169,7 +197,7 @@ theorem entryFuel_succ (reg : Registry) : ∃ k, entryFuel reg = k + 1 := by
     rw [Fuel.entryFuel_eq]; exact Nat.le_trans (by decide) (Nat.le_add_left 64 _)
   exact ⟨entryFuel reg - 1, (Nat.sub_add_cancel this).symm⟩
 
-theorem tstate_ext {plug : Plug} {opts : Opts} (hconv : ConvAgree B X opts plug) :
+theorem tstate_ext {plug : Plug} {opts : Opts} (hconv : ConvAgreeTop B X opts plug) :
     ConvExt ds (tstate B opts plug) (tstate X opts plug) := by
   have e : tstate X opts plug = (newOrder X dk).foldl
       (fun st m => (toEntry (envOf X opts plug) (entryFuel X) m [] m.stmt [] st).2) (tstate B opts plug) := by
@@ -207,7 +235,7 @@ omit h in
 theorem noPending_B (hno : NoAugments B) (opts : Opts) (plug : Plug) : NoPending (pstate0 B opts plug) :=
   noPending_of_rows _ _ _ (rows_B hno opts plug)
 
-theorem noPending_X (hno : NoAugments B) {plug : Plug} {opts : Opts} (hconv : ConvAgree B X opts plug) :
+theorem noPending_X (hno : NoAugments B) {plug : Plug} {opts : Opts} (hconv : ConvAgreeTop B X opts plug) :
     NoPending (pstate0 X opts plug) := by
   obtain ⟨GA, hGA, ha⟩ := (tstate_ext h hconv).augs
   apply noPending_of_rows
@@ -235,7 +263,7 @@ theorem preDev_noPending (reg : Registry) (opts : Opts) (plug : Plug) (hs : NoPe
   rw [h2]
   simp
 
-theorem preDev_ext (hno : NoAugments B) {plug : Plug} {opts : Opts} (hconv : ConvAgree B X opts plug) :
+theorem preDev_ext (hno : NoAugments B) {plug : Plug} {opts : Opts} (hconv : ConvAgreeTop B X opts plug) :
     ∃ G, NewTrees ds G ∧ (preDev X opts plug).forest = ext G (preDev B opts plug).forest := by
   rw [preDev_noPending X opts plug (noPending_X h hno hconv), preDev_noPending B opts plug (noPending_B hno opts plug)]
   obtain ⟨G, hG, hc⟩ := (tstate_ext h hconv).cache
@@ -257,7 +285,7 @@ theorem devStage_eq (reg : Registry) (opts : Opts) (plug : Plug) (f0 : Forest) :
       (keyOrder reg).foldl (stageStep reg opts (envOf reg opts plug) (entryFuel reg)) (f0, [], []) := rfl
 
 omit h in
-theorem devsOf_runs {plug : Plug} {opts : Opts} (hconv : ConvAgree B X opts plug) (m : Mod) (hm : m ∈ B.mods) :
+theorem devsOf_runs {plug : Plug} {opts : Opts} (hconv : ConvAgreeTop B X opts plug) (m : Mod) (hm : m ∈ B.mods) :
     devsOf (envOf X opts plug) (entryFuel X) m = devsOf (envOf B opts plug) (entryFuel B) m := by
   unfold devsOf
   apply map_congr'
@@ -268,7 +296,7 @@ theorem devsOf_runs {plug : Plug} {opts : Opts} (hconv : ConvAgree B X opts plug
       (if deviateKinds.contains dsn.arg then
         some (dsn.arg, (toEntry (envOf B opts plug) (entryFuel B) m [dv, m.stmt] dsn [] {}).1) else none) := by
     intro dsn hds
-    rw [hconv m [dv, m.stmt] dsn [] {} (Fuel.Inv.deviate hm hdv hds)]
+    rw [hconv m [dv, m.stmt] dsn {} (TopCall.deviate hm hdv hds)]
   rw [filterMap_congr' this]
 
 /-- The locations the deviations of the new modules resolve to, each at its turn, in the run with
@@ -300,7 +328,7 @@ def PreDevAgree (B X : Registry) (ds : List Mod) (opts : Opts) (plug : Plug) : P
 /-- **The frame across module sets from the deviation stage on**: whatever the earlier stages are
 like, if they end in forests that agree on the trees of `B`, the results agree outside the targets
 of the new modules' deviations. -/
-theorem frame_core_of_preDev {plug : Plug} {opts : Opts} (hconv : ConvAgree B X opts plug)
+theorem frame_core_of_preDev {plug : Plug} {opts : Opts} (hconv : ConvAgreeTop B X opts plug)
     (hpre : PreDevAgree B X ds opts plug)
     (hX : (processAll X opts plug).errors = []) (hB : (processAll B opts plug).errors = [])
     (t : Nat) (q : Path) (dd : EData) (ho : obsE (processAll B opts plug).forest t q = some dd)
@@ -322,7 +350,7 @@ theorem frame_core_of_preDev {plug : Plug} {opts : Opts} (hconv : ConvAgree B X 
   exact stage_frame X opts (envOf X opts plug) (entryFuel X) t q dd (newOrder X dk) _ (obsE_ext G _ t q dd ho) hq
 
 /-- **The frame across module sets, on the stages of `processAll`.** -/
-theorem frame_core (hno : NoAugments B) {plug : Plug} {opts : Opts} (hconv : ConvAgree B X opts plug)
+theorem frame_core (hno : NoAugments B) {plug : Plug} {opts : Opts} (hconv : ConvAgreeTop B X opts plug)
     (hX : (processAll X opts plug).errors = []) (hB : (processAll B opts plug).errors = [])
     (t : Nat) (q : Path) (dd : EData) (ho : obsE (processAll B opts plug).forest t q = some dd)
     (hq : ∀ loc ∈ newTargets B X opts plug, ¬ (loc.1 = t ∧ loc.2 <+: q)) :
